@@ -787,7 +787,7 @@ def notify (H : Nat → Nat) (P : List (Nat × Nat) → Nat → Nat → Nat) (cf
         match findAmp reg.amps h with
         | none => (reg, ⟨.res (.fail .invoiceNotFound ctx.height), []⟩)
         | some a =>
-          let (a', r, msgs) := anotify H P (!cfg.sql) ctx a
+          let (a', r, msgs) := anotify H P false ctx a
           -- the set-id index is global: adding an htlc under a set id that another invoice
           -- already uses fails with ErrDuplicateSetID (→ ResultInvoiceNotFound, rolled back)
           if r.addsHtlc ∧
